@@ -231,3 +231,48 @@ fn as_integer_exact() {
     let i: i128 = kani::any();
     assert!(Number::Integer(i).as_integer() == Some(i));
 }
+
+/// The integer accessors of Value answer with the SAME mathematical integer or with None when it does not
+/// fit the asked type - for every integer of every representation (loop-free, full domain: a proof).
+/// as_number: an integer that fits i128 as that integer, a u128 beyond i128::MAX as None.
+fn check_int_accessors<A: Enc>(a: A, neg: bool, mag: u128) {
+    // (neg, mag) is the mathematical value of `a` (sign, magnitude); -0 is written (false, 0)
+    let v = a.v();
+    let fits_i128 = if neg { mag <= (1u128 << 127) } else { mag < (1u128 << 127) };
+    match v.as_i128() {
+        Some(x) => assert!(fits_i128 && (x < 0) == neg && x.unsigned_abs() == mag),
+        None => assert!(!fits_i128),
+    }
+    match v.as_u128() {
+        Some(x) => assert!(!neg && x == mag),
+        None => assert!(neg),
+    }
+    let fits_i64 = if neg { mag <= (1u128 << 63) } else { mag < (1u128 << 63) };
+    match v.as_i64() {
+        Some(x) => assert!(fits_i64 && (x < 0) == neg && x.unsigned_abs() as u128 == mag),
+        None => assert!(!fits_i64),
+    }
+    match v.as_u64() {
+        Some(x) => assert!(!neg && x as u128 == mag),
+        None => assert!(neg || mag > u64::MAX as u128),
+    }
+    match v.as_number() {
+        Some(Number::Integer(x)) => assert!(fits_i128 && (x < 0) == neg && x.unsigned_abs() == mag),
+        Some(Number::Float(_)) => assert!(false),
+        None => assert!(!fits_i128),
+    }
+    std::mem::forget(v);
+}
+
+#[kani::proof]
+#[kani::unwind(2)]
+fn int_accessors_exact() {
+    let a: u64 = kani::any();
+    check_int_accessors(a, false, a as u128);
+    let b: i64 = kani::any();
+    check_int_accessors(b, b < 0, b.unsigned_abs() as u128);
+    let c: u128 = kani::any();
+    check_int_accessors(c, false, c);
+    let d: i128 = kani::any();
+    check_int_accessors(d, d < 0, d.unsigned_abs());
+}
